@@ -9,6 +9,7 @@ import (
 	"fmt"
 	"os"
 	"path/filepath"
+	"regexp"
 	"runtime/debug"
 	"sort"
 	"strconv"
@@ -136,7 +137,13 @@ func run(prop, tier, repo, verif, rulesF string, noEv, dumpKeys, verbose bool) (
 		var all []Ob
 		var ruleNotes []string
 		floorFail := 0
-		for _, rn := range p.Rules {
+		for _, spec := range p.Rules {
+			// "RULE" or "RULE~regexp": the regexp scopes the rule's obligations (matched
+			// against the key without the rule prefix) to the constructs this property is about
+			rn, scope := spec, ""
+			if i := strings.Index(spec, "~"); i >= 0 {
+				rn, scope = spec[:i], spec[i+1:]
+			}
 			r, ok := reg[rn]
 			if !ok {
 				fmt.Fprintf(os.Stderr, "CHECKER-FAILURE: property %s names unknown rule %s\n", id, rn)
@@ -150,12 +157,32 @@ func run(prop, tier, repo, verif, rulesF string, noEv, dumpKeys, verbose bool) (
 				cache[rn] = obl
 				ruleWall[rn] = time.Since(tr).Seconds()
 			}
+			nAll, _, _, _, _ := summarise(obl)
+			if scope != "" {
+				re, err := regexp.Compile(scope)
+				if err != nil {
+					fmt.Fprintf(os.Stderr, "CHECKER-FAILURE: bad scope %q: %v\n", spec, err)
+					return 2
+				}
+				var kept []Ob
+				for _, ob := range obl {
+					if re.MatchString(shortKey(ob.Key)) {
+						kept = append(kept, ob)
+					}
+				}
+				obl = kept
+			}
 			n, okc, viol, undec, _ := summarise(obl)
-			ruleNotes = append(ruleNotes, fmt.Sprintf("%s[%d obligations: %d discharged, %d violated, %d undecided; floor %d]", rn, n, okc, viol, undec, r.Floor))
-			if n < r.Floor {
+			ruleNotes = append(ruleNotes, fmt.Sprintf("%s[%d obligations: %d discharged, %d violated, %d undecided; floor %d]", spec, n, okc, viol, undec, r.Floor))
+			if scope != "" && n == 0 {
+				floorFail++
+				all = append(all, Ob{Rule: rn, Key: rn + "/scope " + scope, Pos: "-", Status: UNDECIDED,
+					Msg: "the scoped rule matched no construct: the functions this property's clause is about no longer resolve"})
+			}
+			if nAll < r.Floor {
 				floorFail++
 				all = append(all, Ob{Rule: rn, Key: rn + "/floor", Pos: "-", Status: UNDECIDED,
-					Msg: fmt.Sprintf("rule matched %d sites, fewer than the %d confirmed by hand: the rule's slot no longer resolves (vacuous pass refused)", n, r.Floor)})
+					Msg: fmt.Sprintf("rule matched %d sites, fewer than the %d confirmed by hand: the rule's slot no longer resolves (vacuous pass refused)", nAll, r.Floor)})
 			}
 			all = append(all, obl...)
 		}
